@@ -121,6 +121,59 @@ pub fn run(ctx: &Ctx) -> Outcome {
         co
     });
 
+    // gradient sources built from the enum variants directly, with any matrix as their transform (the constructors
+    // only ever make a few kinds of matrices): the fast route and the path route must still agree
+    run_cases(ctx, &mut out, SubSpec { name: "fill_rect_routes_with_hand_built_gradients", cases: ctx.n(40_000, 600_000), exhaustive: false, max_secs: secs / 2. }, |i, want, st| {
+        let mut rng = ctx.rng("fill_rect_routes_with_hand_built_gradients", i);
+        let w = rng.int(2, 16) as i32;
+        let h = rng.int(2, 16) as i32;
+        let n = (w * h) as usize;
+        let init = canary(&mut rng, n);
+        let stops = random_stops(&mut rng);
+        let g = gradient_of(&stops);
+        let spread = spread_of(rng.below(3) as u8);
+        // device -> gradient space: scales that bring the surface into the unit interval, shears on one side or
+        // both, rotations
+        let sc = 1. / rng.range(2., 30.) as f32;
+        let m = match rng.below(6) {
+            0 => Transform::new(sc, 0., sc * rng.range(-2., 2.) as f32, sc, rng.range(-1., 1.) as f32, 0.),
+            1 => Transform::new(sc, sc * rng.range(-2., 2.) as f32, 0., sc, rng.range(-1., 1.) as f32, 0.),
+            2 => Transform::scale(sc, sc * rng.range(0.3, 3.) as f32),
+            3 => Transform::rotation(euclid::Angle::radians(rng.range(0., 6.28) as f32)).then_scale(sc, sc),
+            4 => Transform::new(sc, 0., 0., 0., 0., 0.5),
+            _ => Transform::new(rng.range(-0.2, 0.2) as f32, rng.range(-0.2, 0.2) as f32, rng.range(-0.2, 0.2) as f32, rng.range(-0.2, 0.2) as f32, rng.range(-1., 1.) as f32, rng.range(-1., 1.) as f32),
+        };
+        let src = match rng.below(2) {
+            0 => Source::LinearGradient(g, spread, m),
+            _ => Source::RadialGradient(g, spread, m),
+        };
+        let (x, y) = (rng.int(-2, w as i64 - 1) as f32, rng.int(-2, h as i64 - 1) as f32);
+        let (rw, rh) = (rng.int(1, w as i64 + 2) as f32, rng.int(1, h as i64 + 2) as f32);
+        let o = DrawOptions { blend_mode: random_mode(&mut rng), alpha: random_alpha(&mut rng), antialias: if rng.chance(0.7) { AntialiasMode::Gray } else { AntialiasMode::None } };
+        let mut a = DrawTarget::from_vec(w, h, init.clone());
+        a.fill_rect(x, y, rw, rh, &src, &o);
+        let mut b = DrawTarget::from_vec(w, h, init.clone());
+        b.fill(&rect_path(x, y, rw, rh), &src, &o);
+        let mut co = CaseOut::default();
+        co.hash = crate::prng::hash_str(&format!("{:?}{:?}{:?}{:?}", (w, h, x, y, rw, rh), m, o, init));
+        let changed = a.get_data().iter().zip(init.iter()).filter(|(p, q)| p != q).count();
+        co.nontrivial = changed > 0 && changed < n;
+        st.add("hand_built_gradient_pairs", 1);
+        if let Some(d) = first_diff(a.get_data(), b.get_data(), w) {
+            co.viol("C14", format!("fill_rect({},{},{},{}) and fill(PathBuilder::rect) differ at {} for a gradient variant with the transform {} (mode {})", x, y, rw, rh, d, transform_str(&m), mode_name(o.blend_mode)));
+        }
+        if want || !co.violations.is_empty() {
+            let mut d = J::obj();
+            d.set("surface", J::s(&format!("{}x{}", w, h)));
+            d.set("gradient_transform", J::s(&transform_str(&m)));
+            d.set("rect", J::s(&format!("{},{} {}x{}", x, y, rw, rh)));
+            d.set("options", J::s(&format!("{} alpha {} {:?}", mode_name(o.blend_mode), o.alpha, o.antialias)));
+            d.set("initial_pixels", pixels_json(&init));
+            co.desc = Some(d);
+        }
+        co
+    });
+
     run_cases(ctx, &mut out, SubSpec { name: "clear_routes", cases: ctx.n(20_000, 300_000), exhaustive: false, max_secs: secs / 3. }, |i, want, st| {
         let mut rng = ctx.rng("clear_routes", i);
         let w = rng.int(1, 16) as i32;
